@@ -458,6 +458,8 @@ pub fn isolation(tier: Tier, w: &Arc<World>) -> Scn {
     let mut srv = ServerCfg::new(&dir);
     srv.single_port = d.chance("swarm.single_port", 1, 2);
     srv.v6 = d.chance("swarm.ipv6", 1, 8);
+    srv.keep_on_error = d.chance("swarm.flag.keep_on_error", 1, 6);
+    srv.overwrite = d.chance("swarm.flag.overwrite", 1, 4);
     let kmax = if tier == Tier::Thorough { 15 } else { 7 };
     let k = 2 + d.range("swarm.clients", kmax) as usize;
     let mut fc = FaultCfg::default();
@@ -473,7 +475,7 @@ pub fn isolation(tier: Tier, w: &Arc<World>) -> Scn {
     let mut desc = format!("isolation {} K={k} [", srv.describe());
     for i in 0..k {
         let upload = d.chance("swarm.kind.upload", 1, 2);
-        let oc = draw_options(&d, false, None);
+        let oc = draw_options(&d, true, None);
         let len = draw_len(&d, oc.b, oc.w, 24, 1 << 18);
         let data = Arc::new(content(len, 200 + i as u64));
         let name = format!("{}{i}.bin", if upload { "u" } else { "f" });
